@@ -242,21 +242,44 @@ func c19Proto(c *Ctx, infos []mappingInfo) {
 				enum = "0"
 			}
 			c.R.check(ok && enum != "", rule, name+"/proto/ToProto", shortFn(tp), c.fpos(tp), "message{Gamma: gamma field, IndexOffset: offset field, Interpolation: constant}", fmt.Sprint(fl))
+		} else {
+			c.R.undecided(rule, name+"/proto/ToProto", shortFn(tp), c.fpos(tp), "ToProto builds the message on a single path", fmt.Sprintf("%d paths", len(ps)))
 		}
-		if ps, _ := exec(c, ep, nil, 1); len(ps) == 1 {
-			var g, o, e *Term
-			for _, ef := range ps[0].Calls() {
-				switch {
-				case isMethodCall(ef.Call, "SetGamma"):
-					g = ef.Call.Args[1]
-				case isMethodCall(ef.Call, "SetIndexOffset"):
-					o = ef.Call.Args[1]
-				case isMethodCall(ef.Call, "SetInterpolation"):
-					e = stripConv(ef.Call.Args[1])
+		{
+			ps, _ := exec(c, ep, nil, 1)
+			ok := len(ps) > 0
+			found := ""
+			for _, p := range ps {
+				var g, o, e *Term
+				for _, ef := range p.Calls() {
+					switch {
+					case isMethodCall(ef.Call, "SetGamma"):
+						g = ef.Call.Args[1]
+					case isMethodCall(ef.Call, "SetIndexOffset"):
+						o = ef.Call.Args[1]
+					case isMethodCall(ef.Call, "SetInterpolation"):
+						e = stripConv(ef.Call.Args[1])
+					}
+				}
+				// a setter may be left out only for the proto3 zero value of that very field
+				zeroOf := func(fld string) bool {
+					for _, cd := range p.Conds {
+						t := cd.Term
+						if (t.isBin("==") || t.isBin("!=")) && (t.Args[0].isConst("0") && isRecvField(t.Args[1], fld) || t.Args[1].isConst("0") && isRecvField(t.Args[0], fld)) && cd.Taken == t.isBin("==") {
+							return true
+						}
+					}
+					return false
+				}
+				okG := g != nil && isRecvField(g, mi.gammaF) || g == nil && zeroOf(mi.gammaF)
+				okO := o != nil && isRecvField(o, mi.offsetF) || o == nil && zeroOf(mi.offsetF)
+				okE := e != nil && e.Op == "const" && e.Sym == enum || e == nil && enum == "0"
+				if !(okG && okO && okE) {
+					ok = false
+					found = fmt.Sprintf("path [%s]: gamma=%v offset=%v enum=%v", p.String(), g, o, e)
 				}
 			}
-			ok := g != nil && isRecvField(g, mi.gammaF) && o != nil && isRecvField(o, mi.offsetF) && e != nil && e.Op == "const" && e.Sym == enum
-			c.R.check(ok, rule, name+"/proto/EncodeProto", shortFn(ep), c.fpos(ep), "SetGamma(gamma field), SetIndexOffset(offset field), SetInterpolation(the same enum as ToProto: "+enum+")", fmt.Sprintf("gamma=%v offset=%v enum=%v", g, o, e))
+			c.R.check(ok, rule, name+"/proto/EncodeProto", shortFn(ep), c.fpos(ep), "on every path: SetGamma(gamma field), SetIndexOffset(offset field), SetInterpolation(the same enum as ToProto: "+enum+"); a setter is skipped only for the zero value of its own field", firstNonEmpty(found, fmt.Sprintf("%d path(s)", len(ps))))
 		}
 		// FromProto arm
 		aps := arms["const:"+enum]
